@@ -731,6 +731,30 @@ func (sc *Scope) call(n *ast.CallExpr) Val {
 			}
 			o := *sc.old
 			return boolVal(app("bvuge", a.L[0], e.getRaw(&o, "$alloc")))
+		case "implements":
+			// implements(x, "io.ReadSeeker"): the dynamic type of interface value x implements the named interface
+			a := sc.expr(n.Args[0])
+			lit, ok := n.Args[1].(*ast.BasicLit)
+			if !ok || !isIface(a.T) {
+				return sc.fail("implements misuse")
+			}
+			s, _ := strconv.Unquote(lit.Value)
+			t := e.ctx.parseType(sc.pkg, s)
+			if t == nil || !isIface(t) {
+				return sc.fail("unknown interface %s", s)
+			}
+			return boolVal(e.implTerm(t, a.L[0]))
+		case "ebspSync":
+			// ebspSync(rd): the decoder monitors of abstract reader rd are those of its consumed prefix
+			a := sc.expr(n.Args[0])
+			if !isIface(a.T) {
+				return sc.fail("ebspSync misuse")
+			}
+			e.declDecoderFns()
+			r := a.L[1]
+			st := sc.st
+			rdata, rpos := e.gget(&st, "rdata", r), e.gget(&st, "rpos", r)
+			return boolVal(and(eq(e.gget(&st, "rz", r), app("RZ", rdata, rpos)), eq(e.gget(&st, "rplen", r), app("RPLEN", rdata, rpos)), eq(e.gget(&st, "rpay", r), app("RPAY", rdata, rpos))))
 		case "typeis":
 			// typeis(x, "pkg.T"): dynamic type of interface value
 			a := sc.expr(n.Args[0])
@@ -877,8 +901,14 @@ func (e *Enc) evalClauseValAt(fr *Frame, c *Clause, at *ssa.BasicBlock, st State
 	sc := &Scope{e: e, fr: fr, st: st.clone(), old: &fr.entrySt, names: e.paramNames(fr), at: at, pkg: fr.fn.Pkg.Pkg, err: &errs, reach: fr.reach[at]}
 	v := sc.formula(c.F)
 	if errs != "" {
+		if c.Auto {
+			return boolVal("true") // a generated candidate that does not bind is simply not a candidate
+		}
 		e.fatalf("%s:%d: binding error: %s in %q", c.File, c.Line, errs, c.Text)
 		return boolVal("false")
+	}
+	if c.Auto && (len(v.L) != 1 || !isBool(v.T)) {
+		return boolVal("true")
 	}
 	if v.C != nil {
 		v = sc.at_(v, types.Typ[types.Int])
